@@ -117,6 +117,15 @@ def gen(rng, i, tier):
             e["ballots"] = [[] if e["btype"] in ("approval", "ordinal") else {} for _ in e["ballots"]]
         elif k == 2 and n:
             e["budget"] = pb.qs(min(pb.F(c) for c in e["costs"]) / 2 or Fraction(1, 2))   # nothing affordable
+    if not deg and (rule == "phragmen" or (rule == "increase" and e["btype"] == "approval" and rng.random() < 0.3)) \
+            and rng.random() < 0.6:
+        # Phragmen-shaped elections (disjoint groups of g voters with projects of cost g*r: several projects are due
+        # at the same moment, some of them fit and some do not -- the stop rule under ties): the generator of C05
+        from . import c05
+        g = c05._draw(rng, "party")
+        if len(g["ballots"]) >= 1:
+            e = {"costs": g["costs"], "budget": g["budget"], "order": g["order"], "btype": "approval",
+                 "ballots": [sorted(b) for b in g["ballots"]], "multi": g["multi"]}
     if not deg and rule in ("mes", "mes_iter", "completion", "increase") and rng.random() < 0.7:
         # Equal-Shares-shaped elections (many rounds, poor and rich supporters in one round, duplicated ballots
         # -> multiplicities >= 2, equal costs -> ties): the shared generator of the Equal Shares properties
@@ -128,6 +137,19 @@ def gen(rng, i, tier):
         rng.shuffle(order)
         e = {"costs": g["costs"], "budget": g["budget"], "order": order, "btype": g["ballot"],
              "ballots": g["ballots"], "multi": rng.random() < 0.6}
+    if not deg and rule in ("mes_iter", "increase") and e["btype"] == "approval" and e["ballots"] \
+            and len(e["costs"]) < 7 and rng.random() < 0.4:
+        # a tempting project that costs slightly more than the whole budget and is approved by (almost) everybody:
+        # with growing endowments the voters can pay for it, the outcome of that try is infeasible for the original
+        # budget, and the wrapper has to fall back on the previous try
+        e = dict(e)
+        j = len(e["costs"])
+        B = pb.F(e["budget"])
+        e["costs"] = list(e["costs"]) + [pb.qs(B + rng.choice([Fraction(1, 3), 1, B / 8 + 1]))]
+        e["order"] = list(e["order"]) + [j]
+        rng.shuffle(e["order"])
+        skip = rng.randrange(len(e["ballots"])) if len(e["ballots"]) > 2 and rng.random() < 0.5 else None
+        e["ballots"] = [sorted(list(b) + [j]) if k != skip else list(b) for k, b in enumerate(e["ballots"])]
     c = dict(e)
     c["rule"] = rule
     sats = E.SATS[e["btype"]]
